@@ -33,6 +33,10 @@ type apiCase struct {
 	dead     bool
 	skipped  bool
 	deadline time.Duration
+	// handles returned by AddWarrior; when useHandles is set the observation goes through them
+	// instead of GetWarrior(i) (a handle must stay valid for the life of the simulator)
+	handles    []gmars.Warrior
+	useHandles bool
 }
 
 func cellStr(i gmars.Instruction) string {
@@ -88,8 +92,12 @@ func guarded(d time.Duration, f func()) string {
 // a core); after a few of them the remaining cases of the domain are skipped
 var apiTimeouts int
 
+// every other case observes the warriors through the handles AddWarrior returned
+var apiCaseNo int
+
 func newAPICase(out *bufio.Writer, id, tag string, cfg gmars.SimulatorConfig, recordReads bool) *apiCase {
-	c := &apiCase{out: out, deadline: 5 * time.Second}
+	apiCaseNo++
+	c := &apiCase{out: out, deadline: 5 * time.Second, useHandles: apiCaseNo%2 == 1}
 	if apiTimeouts >= 3 {
 		c.dead, c.skipped = true, true
 		return c
@@ -146,6 +154,9 @@ func (c *apiCase) observe() string {
 				sb.WriteString("/")
 			}
 			w := c.sim.GetWarrior(i)
+			if c.useHandles && i < len(c.handles) && c.handles[i] != nil {
+				w = c.handles[i]
+			}
 			a := 0
 			if w.Alive() {
 				a = 1
@@ -222,10 +233,13 @@ func (c *apiCase) add(data *gmars.WarriorData) {
 		return
 	}
 	var err error
-	f := guarded(c.deadline, func() { _, err = c.sim.AddWarrior(data) })
+	var h gmars.Warrior
+	f := guarded(c.deadline, func() { h, err = c.sim.AddWarrior(data) })
 	resp := "ok"
 	if err != nil {
 		resp = "err"
+	} else {
+		c.handles = append(c.handles, h)
 	}
 	req := fmt.Sprintf("A %d %s", data.Start, cellsStr(data.Code))
 	if len(data.Code) == 0 {
